@@ -76,12 +76,8 @@ pub fn read_graphml_string(string: &str, specs: GraphSpecs) -> Result<Graph<Stri
                     }
                 }
                 b"key" => {
-                    let attrs = get_attributes_as_hashmap(e);
-                    if attrs.contains_key("attr.name")
-                        && attrs.get("attr.name").unwrap() == "weight"
-                        && attrs.get("for").unwrap() == "edge"
-                    {
-                        edge_weight_attr_name = attrs.get("id").unwrap().to_string();
+                    if let Some(id) = get_edge_weight_key_id(e)? {
+                        edge_weight_attr_name = id;
                     }
                 }
                 _ => (),
@@ -89,23 +85,7 @@ pub fn read_graphml_string(string: &str, specs: GraphSpecs) -> Result<Graph<Stri
             Ok(Event::Start(ref e)) => {
                 match e.name().as_ref() {
                     b"graph" => {
-                        let attrs = get_attributes_as_hashmap(e);
-                        match attrs.get("edgedefault") {
-                            None => {
-                                return Err(get_read_error("the <graph> element does not have an \"edgedefault\" attribute"));
-                            }
-                            Some(value) => match value.as_str() {
-                                "directed" => {
-                                    directed = true;
-                                }
-                                "undirected" => {
-                                    directed = false;
-                                }
-                                _ => {
-                                    return Err(get_read_error("the <graph> element's \"edgedefault\" attribute does not have a valid value; it should be one of \"directed\" or \"undirected\""));
-                                }
-                            },
-                        }
+                        directed = get_graph_directed(e)?;
                     }
                     b"node" => {
                         last_element_name = "node".to_string();
@@ -122,27 +102,29 @@ pub fn read_graphml_string(string: &str, specs: GraphSpecs) -> Result<Graph<Stri
                         }
                     }
                     b"key" => {
-                        let attrs = get_attributes_as_hashmap(e);
-                        if attrs.contains_key("attr.name")
-                            && attrs.get("attr.name").unwrap() == "weight"
-                            && attrs.get("for").unwrap() == "edge"
-                        {
-                            edge_weight_attr_name = attrs.get("id").unwrap().to_string();
+                        if let Some(id) = get_edge_weight_key_id(e)? {
+                            edge_weight_attr_name = id;
                         }
                     }
                     b"data" => {
-                        let attrs = get_attributes_as_hashmap(e);
+                        let attrs = get_attributes_as_hashmap(e)?;
                         if attrs.contains_key("key") {
                             let key = attrs.get("key").unwrap();
                             if key == &edge_weight_attr_name {
                                 let mut buf = Vec::new();
                                 match reader.read_event_into(&mut buf) {
                                     Ok(Event::Text(e)) => {
-                                        let weight = str::from_utf8(&e).unwrap();
-                                        match last_element_name.as_str() {
-                                            "edge" => {
-                                                let edge = Arc::make_mut(edges.last_mut().unwrap());
-                                                edge.weight = weight.parse::<f64>().unwrap();
+                                        let weight = str::from_utf8(&e)
+                                            .map_err(|e| get_read_error(format!("{}", e).as_str()))?;
+                                        match (last_element_name.as_str(), edges.last_mut()) {
+                                            ("edge", Some(last_edge)) => {
+                                                let edge = Arc::make_mut(last_edge);
+                                                edge.weight =
+                                                    weight.trim().parse::<f64>().map_err(|_| {
+                                                        get_read_error(
+                                                            "an edge weight is not a number",
+                                                        )
+                                                    })?;
                                             }
                                             _ => (),
                                         }
@@ -270,7 +252,7 @@ where
 }
 
 fn add_edge(edges: &mut Vec<Arc<Edge<String, ()>>>, e: &BytesStart) -> Result<(), Error> {
-    let attrs = get_attributes_as_hashmap(e);
+    let attrs = get_attributes_as_hashmap(e)?;
     if !attrs.contains_key("source") {
         return Err(get_read_error(
             "an <edge> element does not have a \"source\" attribute",
@@ -289,7 +271,7 @@ fn add_edge(edges: &mut Vec<Arc<Edge<String, ()>>>, e: &BytesStart) -> Result<()
 }
 
 fn add_node(nodes: &mut Vec<Arc<Node<String, ()>>>, e: &BytesStart) -> Result<(), Error> {
-    let attrs = get_attributes_as_hashmap(e);
+    let attrs = get_attributes_as_hashmap(e)?;
     match attrs.get("id") {
         None => Err(get_read_error(
             "a <node> element does not have an \"id\" attribute",
@@ -301,17 +283,45 @@ fn add_node(nodes: &mut Vec<Arc<Node<String, ()>>>, e: &BytesStart) -> Result<()
     }
 }
 
-fn get_attributes_as_hashmap(event: &BytesStart) -> HashMap<String, String> {
+fn get_attributes_as_hashmap(event: &BytesStart) -> Result<HashMap<String, String>, Error> {
     event
         .attributes()
         .map(|a| {
-            let attr = a.unwrap();
+            let attr = a.map_err(|e| get_read_error(format!("{}", e).as_str()))?;
             let key_vec = attr.key.local_name().as_ref().to_vec();
-            let key = String::from_utf8(key_vec).unwrap();
-            let value = attr.unescape_value().unwrap().into_owned();
-            (key, value)
+            let key =
+                String::from_utf8(key_vec).map_err(|e| get_read_error(format!("{}", e).as_str()))?;
+            let value = attr
+                .unescape_value()
+                .map_err(|e| get_read_error(format!("{}", e).as_str()))?
+                .into_owned();
+            Ok((key, value))
         })
         .collect()
+}
+/// Returns the `id` of a <key> element that declares the edge weight attribute, if it is one.
+fn get_edge_weight_key_id(e: &BytesStart) -> Result<Option<String>, Error> {
+    let attrs = get_attributes_as_hashmap(e)?;
+    let is_edge_weight_key = attrs.get("attr.name").map_or(false, |v| v == "weight")
+        && attrs.get("for").map_or(false, |v| v == "edge");
+    match is_edge_weight_key {
+        true => Ok(attrs.get("id").cloned()),
+        false => Ok(None),
+    }
+}
+/// Returns `true` if a <graph> element declares directed edges, `false` if undirected.
+fn get_graph_directed(e: &BytesStart) -> Result<bool, Error> {
+    let attrs = get_attributes_as_hashmap(e)?;
+    match attrs.get("edgedefault") {
+        None => Err(get_read_error(
+            "the <graph> element does not have an \"edgedefault\" attribute",
+        )),
+        Some(value) => match value.as_str() {
+            "directed" => Ok(true),
+            "undirected" => Ok(false),
+            _ => Err(get_read_error("the <graph> element's \"edgedefault\" attribute does not have a valid value; it should be one of \"directed\" or \"undirected\"")),
+        },
+    }
 }
 
 fn get_read_error(message: &str) -> Error {
